@@ -640,7 +640,9 @@ impl<'a> Tycker<'a> {
 
         let error_msg = self.error_message(&error);
         let mut report =
-            Report::build(ReportKind::Error, primary_span.clone()).with_message(&error_msg);
+            Report::build(ReportKind::Error, primary_span.clone())
+                .with_config(zydeco_surface::textual::report_config())
+                .with_message(&error_msg);
 
         // Add labels for the error itself if we have specific error spans
         match &error {
